@@ -9,7 +9,10 @@
    `[p]`, `[path(p)]`, `[path_value(p)]`, `[p |= u]`, `[p = w]`, `[p += w]`, `[p //= w]`, derived
    filters) against the Lean impl-model on: every path expression of depth <= 2 over the atom
    alphabet (quick: 17 atoms, thorough: 27), seeded random expressions of depth 3-4, all JSON trees
-   up to 2 nodes plus a seeded sample of trees up to 5 nodes (each expression on a rotating fifth), update filters `empty . (.,0) .+1 error [.]`.
+   up to 2 nodes plus a seeded sample of trees up to 5 nodes (each expression on a rotating fifth), update filters
+   `empty . (.,0) .+1 error [.] (1,.,2) (.,error)` (none / one / first≠last / first, last, all differ / value then error),
+   conditions with several outputs inside `if` / `select` in update position (12 fixed programs on every value + the
+   condition alphabet `(true,false) (false,true,true) (.[]?|.==1) …` in the exhaustive enumeration).
 3. Model-free oracles on the real binary alone: `[p]` vs `[getpath(path(p))]` (with the manual's
    `//` rule), `path_value`, each row of the manual's update table (`(f|g) |= u` vs
    `f |= (g |= u)` …, `.[] |= u` vs `iter_upd` … with the definitions extracted from
